@@ -972,6 +972,36 @@ def is_type_structural(F, comp):
     return not any(color.get(v, 0) == 0 and dfs(v) for v in comp)
 
 
+ADJACENT_ARGS = {"parser::block_parser::BlockParser::slice_str": 1, "parser::block_parser::BlockParser::text": 2, "parser::quantity::float": 0}
+
+
+def d6_adjacent_slices(chk, F):
+    """BlockParser::slice_str / ::text (and quantity::float, which calls slice_str) assert — debug_assert_adjacent! — that the
+    tokens they receive are consecutive.  That holds for sub-slices of the block's token slice; it does not hold for a COPY from
+    which tokens were dropped.  So the token argument of every call may be built by slicing / splitting / trimming only: no
+    collect / filter / to_vec / owned buffer in its lineage."""
+    OWNED = ("collect", "from_iter", "to_vec", "into_vec", "filter", "filter_map", "extend", "push", "SmallVec", "cloned", "copied", "retain", "dedup")
+    n = 0
+    for k, f in sorted(F.funcs.items()):
+        if f.crate != "cooklang" or f.generated:
+            continue
+        for b, t in f.calls():
+            ck = callee_key(t) or ""
+            idx = next((i for sfx, i in ADJACENT_ARGS.items() if ck.endswith(sfx)), None)
+            if idx is None or idx >= len(t.get("args", [])):
+                continue
+            n += 1
+            e = resolve(f, t["args"][idx])
+            calls = [l[5:] for l in leaves(e) if l.startswith("call:")]
+            bad = [c for c in calls if any(o in c.rsplit("::", 2)[-1] or o in c for o in OWNED if o == c.rsplit("::", 1)[-1] or (o == "SmallVec" and "SmallVec" in c))]
+            tys = " ".join(f.local_ty(p["l"]) or "" for a in [t["args"][idx]] for p in [a.get("move") or a.get("copy")] if p)
+            chk.expect(not bad, "C03.D6-adjacent-slices", f"{region_of(k)}|{ck.rsplit('::', 1)[-1]}", f.where(b),
+                       f"{ck.rsplit('::', 1)[-1]} receives tokens that went through {sorted(set(c.rsplit('::', 1)[-1] for c in bad))}: a copy with tokens removed is "
+                       "not adjacent, and debug_assert_adjacent! in slice_str / text panics (e.g. a quantity written `1 .5`)",
+                       sample=f"{f.where(b)}: token argument is a sub-slice ({sorted(set(c.rsplit('::', 1)[-1] for c in calls))[:4]})")
+    chk.floor("C03.D6-adjacent-slices", "calls passing a token slice to slice_str / text / float", n, 12)
+
+
 # =================================================================================================
 def run(chk: harness.Check):
     paths, th = harness.mir_facts("Q")
@@ -984,7 +1014,7 @@ def run(chk: harness.Check):
         "sum/product is reviewed in tables/narrow_arith.toml; D3 every CFG loop is driven by a finite std iterator or every one of "
         "its cycles passes through the reviewed progress construct of tables/progress.toml, and every recursion cycle is preceded "
         "by its progress call. This decides that the set of ways the library can fail to return is the reviewed set — not that it never fails: "
-        "index and slice sites are an armed inventory (D4, tables/index_sites.toml) whose entries carry machine-checked dominance requirements where the invariant is local; usize additions are counted only. D5: every offset that reaches a diagnostic label has the provenance C04.D1 accepts (report rendering panics on anything else).")
+        "index and slice sites are an armed inventory (D4, tables/index_sites.toml) whose entries carry machine-checked dominance requirements where the invariant is local; usize additions are counted only. D6: the token slice handed to slice_str / text / float is never an owned, filtered copy (debug_assert_adjacent!). D5: every offset that reaches a diagnostic label has the provenance C04.D1 accepts (report rendering panics on anything else).")
     chk.trusted = ["rustc MIR (dev profile: overflow checks and debug assertions present)",
                    "macro-generated items (derive, bitflags, thiserror, strum, uniffi scaffolding) trusted by origin",
                    "std/dependency internals (serde_yaml, codesnake) out of scope", "tables/*.toml are the reviewed reference"]
@@ -996,6 +1026,7 @@ def run(chk: harness.Check):
     chk.floor("C03.D3-progress", "loops analysed", stats["ITER"] + stats["TABLE"], 60)
     n_idx = d4_index(chk, F)
     chk.floor("C03.D4-index", "index / slice sites", n_idx, 80)
+    d6_adjacent_slices(chk, F)
     # D5: "rendering the diagnostics report" panics inside codesnake when a label is off a char boundary or out of the input:
     # the offset-provenance rule decided for C04 is a necessary condition here as well
     import c04
